@@ -44,4 +44,9 @@ inst("addIdx_mem","DIdxSet::addIdx(int i)  [memory safety, blocks of exactly the
   [{"name":"no_grow","slice":"DIdxSet_addIdx.inc","find":"if(max() <= size())","replace":"if(max() < size())"}],defines={"OP":"0","EXACT_ALLOC":""})
 inst("add_arr_mem","DIdxSet::add(int n, const int* i)  [memory safety, blocks of exactly the requested size]",2,
   [{"name":"grow_short","slice":"DIdxSet_add.inc","find":"setMax(size() + n);","replace":"setMax(size() + n - 1);"}],defines={"OP":"2","EXACT_ALLOC":""})
+EXPECTED_S={'addIdx': 3, 'add_n': 5, 'add_arr': 10, 'setMax': 4, 'addIdx_mem': 4, 'add_arr_mem': 14}
+THOROUGH_ONLY=[]
+for _i in u["instances"]:
+    if _i["name"] in EXPECTED_S: _i["expected_s"]=EXPECTED_S[_i["name"]]
+    if _i["name"] in THOROUGH_ONLY: _i["tier"]="thorough"
 json.dump(u, open(os.path.join(os.path.dirname(os.path.abspath(__file__)), "unit.json"), "w"), indent=1)
